@@ -248,6 +248,31 @@ def helpers_case(ctx: Ctx, stream: str, i: int) -> None:
     dz = complex(fx.tree.dot(zx, zy))
     if abs(dz - np.vdot(np.asarray(zx['a']), np.asarray(zy['a']))) > 1e-5:
         ctx.fail(stream, i, 'tree-dot-hermitian', f'complex dot = {dz}: the first argument is not conjugated', {})
+    # every mix of complex and real leaves, in either argument, over pytrees of several leaves and Stokes containers
+    # (`x @ y` of two containers is the same Hermitian sum): sum over the leaves of vdot(x_leaf, y_leaf)
+    from furax.landscapes import StokesPyTree
+    def rleaf(cplx, m):
+        re = np.array([rng.randint(-3, 3) for _ in range(m)], dtype=np.float64)
+        im = np.array([rng.randint(-3, 3) for _ in range(m)], dtype=np.float64)
+        return (re + 1j * im).astype(np.complex64) if cplx else re.astype(np.float32)
+    for trial in range(3):
+        cx, cy = rng.choice([(True, False), (False, True), (True, True), (True, False)])
+        kindd = rng.choice(['QU', 'IQU'])
+        nl = len(kindd)
+        lx_ = [rleaf(cx or (trial == 2 and k == 0), 3) for k in range(nl)]
+        ly_ = [rleaf(cy, 3) for _ in range(nl)]
+        want = sum(np.vdot(a, b) for a, b in zip(lx_, ly_))
+        ccls = StokesPyTree.class_for(kindd)
+        forms = [('tree.dot', lambda: fx.tree.dot({str(k): jnp.asarray(v) for k, v in enumerate(lx_)},
+                                                  {str(k): jnp.asarray(v) for k, v in enumerate(ly_)})),
+                 ('stokes-matmul', lambda: ccls(*[jnp.asarray(v) for v in lx_]) @ ccls(*[jnp.asarray(v) for v in ly_]))]
+        for fname, ff in forms:
+            stz, dzz = safe(ff)
+            if stz != 'ok' or abs(complex(dzz) - want) > 1e-4:
+                ctx.fail(stream, i, f'tree-dot-hermitian:{fname}', f'{fname} with {"complex" if cx else "real"} first and '
+                         f'{"complex" if cy else "real"} second leaves gives {dzz if stz == "ok" else stz}, the Hermitian sum '
+                         f'sum conj(x)·y is {want}', {'first_complex': cx, 'second_complex': cy, 'kind': kindd})
+        ctx.count(f'dot:{"c" if cx else "r"}{"c" if cy else "r"}')
     # as_promoted_dtype
     mix = {'a': jnp.ones(2, dtype=rng.choice(dts)), 'b': jnp.ones(3, dtype=rng.choice(dts)),
            'c': jax.ShapeDtypeStruct((2,), rng.choice(dts))}
